@@ -416,10 +416,11 @@ def h_pubsub(t, part):
 
 
 # ---- simple clients -------------------------------------------------------------------------------------------------------
-SC_OPS = ['emit', 'call+ack', 'event arrives', 'two events arrive', 'receive', 'receive timeout', 'server ends', 'disconnect']
+SC_OPS = ['emit', 'call+ack', 'event arrives', 'two events arrive', 'receive', 'receive timeout', 'server ends', 'disconnect',
+          'server closes the transport']
 
 
-def run_simple(asyncio_, plan, live_only=False):
+def run_simple(asyncio_, plan, live_only=False, reconnection=False):
     """live_only (used by C19's absolute oracle): nothing arrives once the connection has ended, and the trace carries
     ('arrived', event) / ('ended',) markers for the reference model"""
     ended = [False]
@@ -428,7 +429,7 @@ def run_simple(asyncio_, plan, live_only=False):
     holder = {}
 
     def factory(*a, **kw):
-        kw.update(logger=stubs.NULL_LOGGER, serializer=P, handle_sigint=False, reconnection=False)
+        kw.update(logger=stubs.NULL_LOGGER, serializer=P, handle_sigint=False, reconnection=reconnection)
         c = (worlds.HAClient if asyncio_ else worlds.HClient)(*a, **kw)
         holder['c'] = c
         return c
@@ -484,15 +485,15 @@ def run_simple(asyncio_, plan, live_only=False):
         c = holder['c']
         for op in plan:
             name = SC_OPS[op]
-            if live_only and ended[0] and name in ('two events arrive', 'event arrives', 'server ends'):
+            if live_only and ended[0] and name in ('two events arrive', 'event arrives', 'server ends', 'server closes the transport'):
                 continue
             if live_only:
                 if name == 'two events arrive':
                     tr.extend([('arrived', ['burst', 0]), ('arrived', ['burst', 1])])
                 elif name == 'event arrives':
                     tr.append(('arrived', ['news', len(tr) + 1]))
-                elif name in ('server ends', 'disconnect'):
-                    if name == 'server ends':
+                elif name in ('server ends', 'disconnect', 'server closes the transport'):
+                    if name != 'disconnect':
                         tr.append(('ended',))
                     ended[0] = True
             if name == 'emit':
@@ -520,6 +521,10 @@ def run_simple(asyncio_, plan, live_only=False):
                     drv.loop.settle()
             elif name == 'disconnect':
                 api('disconnect', lambda: sc.disconnect())
+            elif name == 'server closes the transport':
+                drv.call(c.eio.server_close())          # engine.io CLOSE packet
+                if asyncio_:
+                    drv.loop.settle()
         tr.append(('out', [worlds.pk(p) for p in worlds.decode_frames(P, [f for f in c.eio.out if not isinstance(f, tuple)])]))
         tr.append(('contained', [exc_name(x[1]) for x in c.eio.contained]))
     finally:
@@ -532,8 +537,8 @@ def h_simple(t, part):
         t.force([part['first']])
     plan = [t.choice(len(SC_OPS)) for _ in range(part['n'])]
     with notrace():
-        a = run_simple(False, plan)
-        b = run_simple(True, plan)
+        a = run_simple(False, plan, reconnection=part.get('reconnection', False))
+        b = run_simple(True, plan, reconnection=part.get('reconnection', False))
     t.reached('pair')
     return compare(a, b, 'simple-client', [SC_OPS[o] for o in plan])
 
@@ -554,7 +559,8 @@ def client_parts(tier):
 
 def simple_parts(tier):
     n = 3 if tier == 'quick' else 4
-    return [{'n': n, 'first': f} for f in range(len(SC_OPS))]
+    return [{'n': n, 'first': f} for f in range(len(SC_OPS))] + \
+        [{'n': n - 1, 'first': f, 'reconnection': True} for f in range(len(SC_OPS))]
 
 
 CHECKS = [
